@@ -450,6 +450,9 @@ class Unit:
             head = re.sub(r"^\s*(pub(\([^)]*\))?\s+)?", "pub ", head, count=1)
             head = head + f" ({sp.ret}: {rt})" + where
         owner = it.owner if "::" in fnkey else ""
+        # R4 (optional `[unit.impl_owner]` table): an extracted type that is emitted under a stand-in name (because a
+        # shared prelude already owns the source name) gets its methods emitted into `impl <stand-in name>`
+        owner = self.cfg.get("unit", {}).get("impl_owner", {}).get(owner, owner)
         start_line = len(g.lines) + 1
         if owner:
             g.emit(f"impl {owner} {{", kind="gen")
